@@ -175,6 +175,7 @@ LastStageRun(runs) == LET idx == {i \in 1..Len(runs) : runs[i].solver # "GMRES"}
 MinBulk(o) == o.bulk_rho_after[CHOOSE i \in 1..Len(o.bulk_rho_after) : \A j \in 1..Len(o.bulk_rho_after) : FLe(o.bulk_rho_after[i], o.bulk_rho_after[j])]
 TolMoles(o) == FAdd("1e-7", FDiv("1e-10", MinBulk(o)))
 Key(e) == <<e.functional, e.system>>
+TolExcess == "1e-3"   \* an excess is resolved relative to the quantity it is the excess of (1e-6 x 1e-3 = 1e-9 of |Omega| or N)
 NotConvergedMsg == "`DFT` did not converge within the maximum number of iterations."
 Solve ==
   /\ Ev("Solve")
@@ -205,7 +206,16 @@ Solve ==
                         Chk("C18.observables_agree", <<info, "surface tension", l>>, E.surface_tension, refobs[k].surface_tension, "1e-6", FAbs(refobs[k].surface_tension), "0"))
                  /\ (~Has(E, "surface_tension") =>
                         /\ Chk("C18.observables_agree", <<info, "grand potential", l>>, o.omega, refobs[k].obs.omega, "1e-6", FAbs(refobs[k].obs.omega), "0")
-                        /\ Chk("C18.observables_agree", <<info, "adsorbed amount", l>>, FSum(o.moles), FSum(refobs[k].obs.moles), "1e-6", FSum(refobs[k].obs.moles), "0"))))
+                        /\ Chk("C18.observables_agree", <<info, "adsorbed amount", l>>, FSum(o.moles), FSum(refobs[k].obs.moles), "1e-6", FSum(refobs[k].obs.moles), "0"))
+                 \* excess observables of solvation profiles (name, value, magnitude of the quantity it is the excess of): path independent like the others
+                 /\ ((Has(E, "observables") /\ Has(refobs[k], "observables")) =>
+                        \A i \in 1..Len(E.observables) :
+                          Chk("C18.observables_agree", <<info, E.observables[i][1], l>>, E.observables[i][2], refobs[k].observables[i][2], "1e-6",
+                              FAdd(FAbs(refobs[k].observables[i][2]), FMul(TolExcess, FAbs(refobs[k].observables[i][3]))), "0")))
+          \* what the SolvationProfile / PairCorrelation wrapper stores after solving is computed from the profile it holds
+          /\ (Has(E, "stored") => \A i \in 1..Len(E.stored) :
+                 Chk("C18.stored_grand_potential_belongs_to_profile", <<info, E.stored[i][1], E.stored[i][2], E.stored[i][3], l>>, E.stored[i][2], E.stored[i][3], "1e-9",
+                     FAdd(FAbs(E.stored[i][3]), FAbs(o.omega)), "0")))
      /\ (~E.ok /\ E.err = NotConvergedMsg =>
           \* the log is stored before Err(NotConverged) is returned: the same stage laws, with a last stage that missed its tolerance
           /\ Report("C18.log_is_behaviour_of_chain", <<info, o.runs, l>>, LogFollowsChain(E, E.chain, o.runs))
